@@ -338,27 +338,45 @@ def word_of(var, append, zips, struct_name):
 
 
 def charge_bounds(setter):
-    """(lo, hi) admitted by `value > hi or value < lo -> raise` in a charge setter"""
-    lo = hi = None
+    """(lo, hi) of the integer charges the setter admits, decided by evaluating its raising guards over -12..12 (any spelling of the range test:
+    `value > 4 or value < -4`, `not -4 <= value <= 4`, `value not in range(-4, 5)`); None if the admitted set is not one interval or a guard is not understood"""
+    from .r_query import _ev, _Unknown
+    par = setter.params()[-1]
+    guards = []
     for n in ast.walk(setter.node):
-        if isinstance(n, ast.Compare) and len(n.ops) == 1 and isinstance(n.left, ast.Name):
+        if isinstance(n, ast.If) and any(isinstance(x, ast.Raise) for s_ in n.body for x in ast.walk(s_)):
+            guards.append(n.test)
+    admitted = []
+    for v in range(-12, 13):
+        rejected = False
+        for g in guards:
             try:
-                v = ast.literal_eval(n.comparators[0])
-            except Exception:
-                continue
-            if not isinstance(v, int) or isinstance(v, bool):
-                continue
-            if isinstance(n.ops[0], ast.Gt):
-                hi = v
-            elif isinstance(n.ops[0], ast.Lt):
-                lo = v
-            elif isinstance(n.ops[0], ast.GtE):
-                hi = v - 1
-            elif isinstance(n.ops[0], ast.LtE):
-                lo = v + 1
-    if lo is None or hi is None:
+                env = {par: v, 'range': range}
+                if _ev_range(g, env, _ev):
+                    rejected = True
+                    break
+            except _Unknown:
+                return None
+        if not rejected:
+            admitted.append(v)
+    if not admitted or admitted != list(range(admitted[0], admitted[-1] + 1)) or admitted[0] == -12 or admitted[-1] == 12:
         return None
-    return lo, hi
+    return admitted[0], admitted[-1]
+
+
+def _ev_range(g, env, _ev):
+    """_ev with support for `x in range(a, b)` / `x not in range(a, b)` and isinstance guards that do not concern ints"""
+    if isinstance(g, ast.BoolOp):
+        vals = [_ev_range(v, env, _ev) for v in g.values]
+        return all(vals) if isinstance(g.op, ast.And) else any(vals)
+    if isinstance(g, ast.UnaryOp) and isinstance(g.op, ast.Not):
+        return not _ev_range(g.operand, env, _ev)
+    if isinstance(g, ast.Compare) and len(g.ops) == 1 and isinstance(g.ops[0], (ast.In, ast.NotIn)) and isinstance(g.comparators[0], ast.Call) and \
+            isinstance(g.comparators[0].func, ast.Name) and g.comparators[0].func.id == 'range':
+        args = [_ev(a, env) for a in g.comparators[0].args]
+        r = _ev(g.left, env) in range(*args)
+        return r if isinstance(g.ops[0], ast.In) else not r
+    return _ev(g, env)
 
 
 def matcher_layout(repo):
